@@ -489,6 +489,10 @@ def check_c08(model, rep, tier):
     r_jsoncfg(model, rep)
     r_inicfg(model, rep)
     r_writer_pure(model, rep)
+    # cells are sets of Image objects: with value-based equality, which of two "equal" images a cell keeps depends on the
+    # order they were added in, and so does the file
+    from .sources import r_identity_hash
+    r_identity_hash(model, rep)
 
 
 # ---------------------------------------------------------------------------------------------------------
